@@ -153,7 +153,16 @@ def mon_c04(case, obs, prefix):
             if k == "del":
                 allowed = {ev["msg"]["seid"]}
             elif k == "asr":
-                allowed = None
+                # re-association of node id X ends the sessions of the node object registered under X (which sessions
+                # ought to be under X is C05's matter; here: no session of ANOTHER node object may go)
+                v = (ev["msg"].get("nid") or {}).get("v")
+                if v is None:
+                    allowed = set()
+                elif v >= 1000:
+                    allowed = None
+                else:
+                    obj = (prev.get("rnodes") or {}).get(peer_ip(prefix, v))
+                    allowed = {x["lid"] for x in (prev.get("slots") or []) if x is not None and obj is not None and x["node"] == obj}
             elif k == "srr" and ev["msg"].get("hdr") == 0:
                 about, rid0 = pending.get((ev["peer"], ev["seq"]), (None, None))
                 s0 = live(prev, about) if about is not None else None
